@@ -19,6 +19,10 @@ type C13Case struct {
 	From    int          `json:"from"` // node selector (mod #eligible)
 	To      int          `json:"to"`
 	UseNext bool         `json:"use_next,omitempty"` // start the set with the v2 transactions of a child block of from
+	// ChildrenOnly (with UseNext): the block's transactions are only used as
+	// unconfirmed parents; the set handed over holds just the children built on
+	// top of them (a renter transaction rebased alone, a relayed child)
+	ChildrenOnly bool `json:"children_only,omitempty"`
 	Extra   []kit.Intent `json:"extra,omitempty"`    // further transactions built on top
 	// Corrupt: 0 none, 1 flip a proof hash, 2 change a leaf index, 3 unknown basis id, 4 basis with a wrong height
 	Corrupt int `json:"corrupt,omitempty"`
@@ -48,6 +52,13 @@ func genC13(t *rapid.T) C13Case {
 		c.Corrupt = 1 + kit.Uniform(t, 4, "corrupt")
 	}
 	c.Pool = kit.Chance(t, 35, "pool")
+	if c.UseNext && kit.Chance(t, 40, "childrenonly") {
+		c.ChildrenOnly = true
+		c.Pool = false
+		for i := range c.Extra {
+			c.Extra[i].Eph = true
+		}
+	}
 	if c.Pool {
 		// pool family: favour dependency chains and diamonds among the members
 		for i := range c.Extra {
@@ -162,6 +173,11 @@ func runC13(c C13Case, cs *kit.CaseStats) (err error) {
 	for _, in := range c.Extra {
 		bb.Add(in)
 	}
+	var outside []types.V2Transaction // unconfirmed parents that are not handed over
+	if c.ChildrenOnly && len(set) > 0 {
+		outside, set, kinds = set, nil, nil
+		cs.Class("children-only-set(parents-outside)")
+	}
 	set = append(set, bb.V2Txns...)
 	kinds = append(kinds, bb.V2TxnKinds...)
 	if len(set) == 0 {
@@ -170,6 +186,12 @@ func runC13(c C13Case, cs *kit.CaseStats) (err error) {
 	}
 	// sanity: the set really is valid at from (core decides)
 	ms := consensus.NewMidState(from.Ledger.State)
+	for _, t := range outside {
+		if verr := consensus.ValidateV2Transaction(ms, t); verr != nil {
+			return fmt.Errorf("INFRA: outside parent invalid at its basis: %v", verr)
+		}
+		ms.ApplyV2Transaction(t)
+	}
 	for i, t := range set {
 		if verr := consensus.ValidateV2Transaction(ms, t); verr != nil {
 			return fmt.Errorf("INFRA: generated set member %d (%s) is not valid at its basis: %v", i, kinds[i], verr)
